@@ -135,10 +135,14 @@ def check_memory(case):
 def check_files(case):
     ctx = {k: case[k] for k in ('sep', 'esc', 'types', 'repeat')}
     ctx['rows'] = case['rows']
+    # an extra string column of multi-byte characters whose length varies from row to row, so that the 64 KiB read
+    # boundaries fall inside characters
+    case = dict(case, types=case['types'] + ['str'])
+    pad = (chr(0xe9) + chr(0x20ac) + chr(0x1F600)) * 4
+    plain_rows = [list(r) + [pad[:3 + (n % 7)]] for n, r in enumerate(list(case['rows']) * case['repeat'])]
     dtype = schema(case)
     Item, _, _ = csv.create_schema_factory(dtype)
-    rows = [Item(*r) for r in case['rows']] * case['repeat']
-    plain_rows = list(case['rows']) * case['repeat']
+    rows = [Item(*r) for r in plain_rows]
     d = tempfile.mkdtemp(prefix='rxsci_c18_')
     try:
         f = os.path.join(d, 'x.csv')
